@@ -1,7 +1,8 @@
 import TsV.Lemmas.C12_Common
 /-!
-# C12, Scala: the unsigned aliases are used by `format_type` at any depth, but the alias block is
-driven by a scan that looks one level deep
+# C12, Scala: the unsigned aliases are used by `format_type` at any depth, and the alias block is
+driven by a scan (`uses_unsigned`) that descends to any depth as well (since the `fix:` commit c7871b1;
+before, the scan looked one level deep and not under arrays / slices)
 -/
 namespace TsV.C12L.Scala
 open TsV TsV.Lang TsV.Lang.Scala TsV.C12L
@@ -143,12 +144,38 @@ def formatted (d : ParsedData) : List RustType :=
 /-- **helpersUsed (Scala)**: some formatted type prints an unsigned alias name -/
 def used (cfg : Cfg) (d : ParsedData) : Bool := (formatted d).any (unsignedIn cfg)
 
-/-- the scan reaches an unsigned integer of `t` -/
-def within (t : RustType) : Bool := (scanCandidates t).any isUnsigned
+theorem isUnsigned_prim (p : Prim) : isUnsigned (.prim p) = isUnsignedPrim p := by
+  cases p <;> rfl
 
-theorem unsignedIntegerUsed_eq (d : ParsedData) : unsignedIntegerUsed d = (scannedTypes d).any within := by
-  simp only [unsignedIntegerUsed, List.any_flatMap]
-  rfl
+mutual
+  /-- the scan finds every unsigned integer that formatting prints (it also enters the arguments
+  of type-mapped generics, which are never formatted: the scan may say yes where nothing is used) -/
+  theorem usesUnsigned_of_unsignedIn (cfg : Cfg) : ∀ t : RustType, unsignedIn cfg t = true → usesUnsigned t = true
+    | .simple _, h => by simp [unsignedIn] at h
+    | .generic id ps, h => by
+      simp only [unsignedIn] at h
+      split at h
+      · cases h
+      · simp only [usesUnsigned]; exact usesUnsignedList_of_unsignedInList cfg ps h
+    | .vec t, h => by simp only [unsignedIn] at h; simp only [usesUnsigned]; exact usesUnsigned_of_unsignedIn cfg t h
+    | .array t _, h => by simp only [unsignedIn] at h; simp only [usesUnsigned]; exact usesUnsigned_of_unsignedIn cfg t h
+    | .slice t, h => by simp only [unsignedIn] at h; simp only [usesUnsigned]; exact usesUnsigned_of_unsignedIn cfg t h
+    | .option t, h => by simp only [unsignedIn] at h; simp only [usesUnsigned]; exact usesUnsigned_of_unsignedIn cfg t h
+    | .hashMap k v, h => by
+      simp only [unsignedIn, Bool.or_eq_true] at h
+      simp only [usesUnsigned, Bool.or_eq_true]
+      exact h.imp (usesUnsigned_of_unsignedIn cfg k) (usesUnsigned_of_unsignedIn cfg v)
+    | .prim p, h => by
+      simp only [unsignedIn] at h
+      simp only [usesUnsigned, isUnsigned_prim, h]
+  theorem usesUnsignedList_of_unsignedInList (cfg : Cfg) : ∀ ts : List RustType,
+      unsignedInList cfg ts = true → usesUnsignedList ts = true
+    | [], h => by simp [unsignedInList] at h
+    | t :: ts, h => by
+      simp only [unsignedInList, Bool.or_eq_true] at h
+      simp only [usesUnsignedList, Bool.or_eq_true]
+      exact h.imp (usesUnsigned_of_unsignedIn cfg t) (usesUnsignedList_of_unsignedInList cfg ts)
+end
 
 theorem fieldFormatted_sub (f : RustField) : ∀ t ∈ fieldFormatted f, t = f.ty := by
   intro t ht
@@ -240,93 +267,52 @@ theorem renderFile_defines (f : ScFile) (h : definesUnsigned f = true) : unsigne
       exact ⟨s%"package object " ++ sp.2 ++ s%" {\n\n", (as.flatMap renderAlias) ++ s%"}\n", by
         simp only [List.append_assoc]⟩
 
-/-! ## the exact class of failures -/
+/-! ## used ⇒ provided -/
 
-/-- **Known (Scala)**: some formatted type prints an unsigned alias whose integer the scan does not
-reach — and nothing else in the file brings one within reach of the scan -/
-def Known (cfg : Cfg) (d : ParsedData) : Prop :=
-  (∃ t ∈ formatted d, unsignedIn cfg t = true ∧ within t = false) ∧ ∀ t ∈ scannedTypes d, within t = false
-
-instance (cfg : Cfg) (d : ParsedData) : Decidable (Known cfg d) := by unfold Known; infer_instance
-
-theorem used_provided_iff (cfg : Cfg) (d : ParsedData) :
-    (used cfg d = true → unsignedIntegerUsed d = true) ↔ ¬ Known cfg d := by
-  rw [unsignedIntegerUsed_eq]
-  simp only [used, List.any_eq_true, Known]
-  constructor
-  · rintro h ⟨⟨t, ht, hu, _⟩, hall⟩
-    obtain ⟨t', ht', hw⟩ := h ⟨t, ht, hu⟩
-    rw [hall t' ht'] at hw; simp at hw
-  · rintro hk ⟨t, ht, hu⟩
-    cases hw : within t with
-    | true => exact ⟨t, formatted_sub_scanned d t ht, hw⟩
-    | false =>
-      apply Classical.byContradiction
-      intro hn
-      apply hk
-      refine ⟨⟨t, ht, hu, hw⟩, ?_⟩
-      intro t' ht'
-      cases hw' : within t' with
-      | false => rfl
-      | true => exact absurd ⟨t', ht', hw'⟩ hn
-
-/-- what "beyond the reach of the scan" means structurally: the unsigned integer sits under an
-array or a slice (never entered), or at least two levels down -/
-def beyondReach (cfg : Cfg) : RustType → Bool
-  | .array t _ | .slice t => unsignedIn cfg t
-  | .vec t | .option t => (match t with | .prim _ => false | _ => unsignedIn cfg t)
-  | .hashMap k v =>
-    (match k with | .prim _ => false | _ => unsignedIn cfg k) || (match v with | .prim _ => false | _ => unsignedIn cfg v)
-  | .generic id ps =>
-    if (mapGet cfg.typeMappings id).isSome then false
-    else ps.any fun t => match t with | .prim _ => false | _ => unsignedIn cfg t
-  | _ => false
-
-theorem isUnsigned_prim (p : Prim) : isUnsigned (.prim p) = isUnsignedPrim p := by
-  cases p <;> rfl
+/-- whenever some formatted type prints an unsigned alias, the scan says so -/
+theorem used_provided (cfg : Cfg) (d : ParsedData) (hu : used cfg d = true) : unsignedIntegerUsed d = true := by
+  simp only [used, List.any_eq_true] at hu
+  obtain ⟨t, ht, htu⟩ := hu
+  simp only [unsignedIntegerUsed, List.any_eq_true]
+  exact ⟨t, formatted_sub_scanned d t ht, usesUnsigned_of_unsignedIn cfg t htu⟩
 
 theorem unsignedInList_eq_any (cfg : Cfg) : ∀ ps : List RustType, unsignedInList cfg ps = ps.any (unsignedIn cfg)
   | [] => rfl
   | t :: ts => by simp [unsignedInList, unsignedInList_eq_any cfg ts]
 
-theorem unsignedIn_child (cfg : Cfg) (t : RustType) :
-    (unsignedIn cfg t && !isUnsigned t) = true →
-    (match t with | .prim _ => false | _ => unsignedIn cfg t) = true := by
-  cases t <;> simp [isUnsigned_prim, unsignedIn] <;> intros <;> simp_all
+theorem usesUnsignedList_eq_any : ∀ ps : List RustType, usesUnsignedList ps = ps.any usesUnsigned
+  | [] => rfl
+  | t :: ts => by simp [usesUnsignedList, usesUnsignedList_eq_any ts]
 
-/-- a printed unsigned alias that the scan misses lies beyond its reach in exactly this sense -/
-theorem beyondReach_of_missed (cfg : Cfg) (t : RustType) (hu : unsignedIn cfg t = true) (hw : within t = false) :
-    beyondReach cfg t = true := by
-  cases t with
-  | simple id => simp [unsignedIn] at hu
-  | prim p => simp [within, scanCandidates, isUnsigned_prim, unsignedIn] at hw hu; simp [hu] at hw
-  | array r n => simpa [beyondReach, unsignedIn] using hu
-  | slice r => simpa [beyondReach, unsignedIn] using hu
-  | vec r =>
-    simp only [within, scanCandidates, List.any_cons, List.any_nil, Bool.or_false] at hw
-    simp only [unsignedIn] at hu
-    exact unsignedIn_child cfg r (by simp [hu, hw])
-  | option r =>
-    simp only [within, scanCandidates, List.any_cons, List.any_nil, Bool.or_false] at hw
-    simp only [unsignedIn] at hu
-    exact unsignedIn_child cfg r (by simp [hu, hw])
-  | hashMap k v =>
-    simp only [within, scanCandidates, List.any_cons, List.any_nil, Bool.or_false, Bool.or_eq_false_iff] at hw
-    simp only [unsignedIn, Bool.or_eq_true] at hu
-    simp only [beyondReach, Bool.or_eq_true]
-    rcases hu with hu | hu
-    · exact Or.inl (unsignedIn_child cfg k (by simp [hu, hw.1]))
-    · exact Or.inr (unsignedIn_child cfg v (by simp [hu, hw.2]))
-  | generic id ps =>
-    simp only [unsignedIn] at hu
-    simp only [beyondReach]
-    by_cases hm : (mapGet cfg.typeMappings id).isSome = true
-    · simp [hm] at hu
-    · simp only [hm, if_false, Bool.false_eq_true] at hu ⊢
-      rw [unsignedInList_eq_any, List.any_eq_true] at hu
-      obtain ⟨x, hx, hxu⟩ := hu
-      simp only [within, scanCandidates, List.any_eq_false] at hw
-      rw [List.any_eq_true]
-      exact ⟨x, hx, unsignedIn_child cfg x (by simp [hxu, hw x hx])⟩
+/-- without type mappings the scan and the formatter agree type by type: the scan is exact -/
+theorem usesUnsigned_eq_unsignedIn (cfg : Cfg) (hm : cfg.typeMappings = []) :
+    ∀ t : RustType, usesUnsigned t = unsignedIn cfg t := by
+  have hg : ∀ id, (mapGet cfg.typeMappings id).isSome = false := by intro id; rw [hm]; rfl
+  intro t
+  cases h : unsignedIn cfg t with
+  | true => exact usesUnsigned_of_unsignedIn cfg t h
+  | false =>
+    suffices hs : (∀ t, usesUnsigned t = true → unsignedIn cfg t = true) by
+      cases h' : usesUnsigned t with
+      | false => rfl
+      | true => rw [hs t h'] at h; cases h
+    intro t
+    induction t using RustType.rec (motive_2 := fun ts => usesUnsignedList ts = true → unsignedInList cfg ts = true) with
+    | simple id => simp [usesUnsigned]
+    | generic id ps ih => simp only [usesUnsigned, unsignedIn, hg id, Bool.false_eq_true, if_false]; exact ih
+    | vec t ih => simpa only [usesUnsigned, unsignedIn] using ih
+    | array t n ih => simpa only [usesUnsigned, unsignedIn] using ih
+    | slice t ih => simpa only [usesUnsigned, unsignedIn] using ih
+    | option t ih => simpa only [usesUnsigned, unsignedIn] using ih
+    | hashMap k v ihk ihv =>
+      simp only [usesUnsigned, unsignedIn, Bool.or_eq_true]
+      exact fun h => h.imp ihk ihv
+    | prim p => simp only [usesUnsigned, unsignedIn, isUnsigned_prim]; exact id
+    | nil => rename_i h; simp [usesUnsignedList] at h
+    | cons t ts iht ihts =>
+      rename_i h
+      simp only [usesUnsignedList, Bool.or_eq_true] at h
+      simp only [unsignedInList, Bool.or_eq_true]
+      exact h.imp iht ihts
 
 end TsV.C12L.Scala
